@@ -412,6 +412,24 @@ def run(tier, replay=None):
         rep.floor('ill-formed witnesses', len(bad), 40)
     finally:
         shutil.rmtree(root, ignore_errors=True)
+    # the macro crates link their own build of the impl crates (host dependency, no optional feature) while the user's run-time parser is
+    # built with whatever features the user enables: "equal to parsing at run time" needs the two builds to be the same code
+    from .. import diff
+    from . import c20
+    fb, ff = factsmod.load('K0'), factsmod.load('K3')
+    ncmp = 0
+    for cr in ('unic_langid_impl', 'unic_locale_impl'):
+        if cr not in fb.crates or cr not in ff.crates:
+            rep.ob('diff:%s:present' % cr, 'DIFF-ANCHOR', cr, '-', 'crate %s present in K0 and K3' % cr, False, 'ANCHOR-MISSING: crate not built in one of the configurations')
+            continue
+        res = diff.compare_crate(fb.crates[cr], ff.crates[cr], c20.EXCEPTIONS)
+        ncmp += res['shared']
+        rep.ob('diff:%s:macro-build-vs-all-features' % cr, 'DIFF-BODY', cr, '-',
+               '%s: every body of the feature-less build (the one the proc-macro crates link) has identical MIR in the all-features build (the run-time side)' % cr,
+               not res['changed'] and not res['removed'],
+               detail='\n'.join(['%s [%s] differs at %s' % (n, sp, d) for n, d, sp in res['changed'][:5]] + ['%s removed by the feature' % n for n in res['removed'][:5]]),
+               how='%d shared bodies identical' % (res['shared'] - len(res['changed']) - len(res['excepted'])), witness=res['changed'][0][0] if res['changed'] else None)
+    rep.floor('impl-crate bodies compared between the macro-side and run-time-side builds', ncmp, 200)
     # the run-time `parse().expect()` that locale! emits: the canonical extension string re-parses (spec round trip, shared with C05)
     c05.spec_roundtrip(rep)
     rep.explanation = ('Translation validation on a generated witness set: each well-formed invocation must type-check and its expansion, read from the MIR of the witness crate, must carry exactly the '
